@@ -166,6 +166,7 @@ class Site:
         self.contexts = 0
         self.guarded_where = False
         self.symbolic_exp = False  # a power whose exponent is not a constant (may or may not be negative)
+        self.where_no_out = False  # np.divide/np.power(..., where=m) without out=: masked-out entries are uninitialised
 
 
 class Interp:
@@ -780,6 +781,8 @@ class Frame:
             return AV(Z, False, False)
         if cn in ("np.divide", "np.true_divide") and len(e.args) >= 2:
             self.I.record(self.fn, e, "div", e.args[1], fargs[1], guarded="where" in kws)
+            if "where" in kws and "out" not in kws:
+                self.I.sites[id(e)].where_no_out = True
             s = (P if fargs[0].sign == P else (Z if fargs[0].sign == Z else U)) if fargs[1].sign == P else U
             return AV(s, dep, fargs[0].cl or fargs[1].cl)
         if cn in ("np.power",) and len(e.args) >= 2:
